@@ -209,8 +209,11 @@ pub fn run(ctx: &Ctx, sink: &mut Sink) {
             sink.case(&format!("pair|{}|{}", ai, bi), true);
             if a.category != b.category {
                 // (7) cross-category: error
-                if let Ok(v) = cv.convert(sink, 1.0, a0, b0) {
-                    sink.viol(&format!("cross-category {}->{}", a.category.name(), b.category.name()), "units of different categories are convertible", json!({"from": uname(a), "to": uname(b), "result": v}));
+                for x in MAGS.iter() {
+                    if let Ok(v) = cv.convert(sink, *x, a0, b0) {
+                        sink.viol(&format!("cross-category {}->{}", a.category.name(), b.category.name()), "units of different categories are convertible", json!({"value": x, "from": uname(a), "to": uname(b), "result": v}));
+                        break;
+                    }
                 }
                 continue;
             }
@@ -326,8 +329,11 @@ pub fn run(ctx: &Ctx, sink: &mut Sink) {
                         continue;
                     }
                     sink.case(&format!("xcat|{}|{}", ida, idb), true);
-                    if let Ok(v) = cv.convert(sink, 1.0, ida, idb) {
-                        sink.viol(&format!("cross-category {}->{}", a.category.name(), b.category.name()), "units of different categories are convertible", json!({"from_identifier": ida, "to_identifier": idb, "from": uname(a), "to": uname(b), "result": v}));
+                    for x in [1.0f64, 0.0, -0.0, -2.5] {
+                    if let Ok(v) = cv.convert(sink, x, ida, idb) {
+                        sink.viol(&format!("cross-category {}->{}", a.category.name(), b.category.name()), "units of different categories are convertible", json!({"value": x, "from_identifier": ida, "to_identifier": idb, "from": uname(a), "to": uname(b), "result": v}));
+                        break;
+                    }
                     }
                 }
             }
